@@ -1,4 +1,5 @@
 //! simcore: the dasp-independent part of the deterministic simulator.
+pub mod alloc;
 pub mod batch;
 pub mod case;
 pub mod cli;
